@@ -29,7 +29,7 @@ from vf.xmlkit import deep_eq
 ID = "C14"
 LEVEL = "exploration"
 RULE = (
-    "case = a sequence of operations (parse/serialize/decode/encode, succeeding or failing, over a pool of 56 operations on "
+    "case = a sequence of operations (parse/serialize/decode/encode, succeeding or failing, over a pool of 58 operations on "
     "models that share classes between roles) applied to shared instances, each step compared with the same operation on fresh "
     "instances and with its outcome in a forked process that has performed nothing else (process-wide state). Every sequence of length <= 3 over the pool is enumerated (quick: a deterministic 1/8 slice per seed of the length-3 "
     "sequences, complete for lengths 1-2; thorough: complete), plus seeded random sequences of length 10-60 including module loads "
@@ -199,6 +199,7 @@ JSONS = {
     "nums": {"a": 1, "b": 2.5, "t": [1, 2]},
     "nums-unknown-key": {"a": 1, "zzz": 1},
     "nums-bad": {"a": "x"},
+    "prefs": {"host": "h", "port": 1},
     "pet-dog": {"animal": {"bark": "woof", "name": "rex"}, "tag": 1},
     "pet-cat-bad-tag": {"animal": {"lives": 9}, "tag": "many"},
 }
@@ -240,6 +241,8 @@ for _o in ["box-derived", "nums", "item"]:
 # a value whose class is an unregistered subclass of a supported type next to a model that declares that subclass as a field type
 OPS += [("parse", "pet-dog", "Pet", "native", False), ("parse", "pet-cat-bad-tag", "Pet", "lxml", False), ("decode", "pet-dog", "Pet", False), ("decode", "pet-cat-bad-tag", "Pet", True),
         ("serialize", "pet", "native", False), ("serialize", "reading-subclass-value", "lxml", False), ("encode", "reading-subclass-value", True), ("parse", "typed-reading", "TypedReading", "native", False)]
+# a class located by its keys while the index still lists an unsupported dataclass of the same name in front of it
+OPS += [("decode", "prefs", None, False), ("decode", "prefs", None, True)]
 LATE_OPS = [("load-late",), ("parse-late",), ("decode-late",), ("parse-twin",)]
 
 
